@@ -96,9 +96,11 @@ class Gen:
 
 def parse(src):
     from plasTeX.TeX import TeX
+    from util import time_limit
     t = TeX()
     t.input(src)
-    return t.parse()
+    with time_limit(20):
+        return t.parse()
 
 
 def walk(node, fn, seen, path):
@@ -167,6 +169,12 @@ def check_doc(w):
                     problems.append('%s contains %s outside a paragraph' % (n.nodeName, c.nodeName))
                 elif c.nodeType == Node.TEXT_NODE and str(c).strip():
                     problems.append('%s contains running text outside a paragraph' % n.nodeName)
+        # running text of this container: its direct text children joined (text may be split over several nodes)
+        if n.nodeType in (Node.ELEMENT_NODE, Node.DOCUMENT_FRAGMENT_NODE) and getattr(n, 'nodeName', '') not in ('verb', 'verbatim', 'math', 'displaymath') \
+                and not any(getattr(q, 'nodeName', '') in ('verb', 'verbatim', 'math', 'displaymath', 'equation') for q in path):
+            run = ''.join(str(c) for c in n.childNodes if c.nodeType == Node.TEXT_NODE)
+            if '---' in run or '``' in run or "''" in run:
+                problems.append('typographic substitution missing in running text %r of %s' % (run[:60], n.nodeName))
         if n.nodeType == Node.ELEMENT_NODE and n.nodeName == 'par':
             for c in n.childNodes:
                 if c.nodeType == Node.ELEMENT_NODE and c.nodeName == 'par':
